@@ -149,12 +149,17 @@ CLAIMED = {
        "lemma, and the fact that a statement of type `!` yields no value (so a body falls off its end only when () is a result). "
        "STAGE 4 (Thm/C01StA..D) adds MUTABLE CELLS AND LOOPS: the model Model/CheckS (`mut T e`, `*c`, `c = v`, the eleven `c op= v`, "
        "`loop`, `while`, `while x: T = e`, `break` / `continue` only inside a loop body and never across a function boundary; stream of 2500 "
-       "programs with cells and loops) and the outcome theorem over a STORE TYPING: from any store that respects a store typing S, a typed "
+       "programs with cells, loops, for, destructuring and union-typed operands) and the outcome theorem over a STORE TYPING: from any store that respects a store typing S, a typed "
        "expression ends with a store that respects an extension of S and a value of its type (by tag and by contents), or in a documented error, "
        "fuel, a well-typed `return`, or - inside a loop body only - break / continue (eval_outcome); every cell of the final store holds a value "
        "of the cell's declared type (cells_keep_their_types); whole programs from the empty store (program_outcome). The proof uses that cell "
        "types are invariant under matches, so a cell reached at static type `mut c` has a declared type == c. "
-       "Outside the fragment (structs, iterators, `for`, inferred `mut e`, unions of cell / function types as operands) the "
+       "STAGES 5-6 add `for x in it body` over iterators `() -> (bool, T)`, tuple destructuring, and the operators on operands of a UNION "
+       "type through the implementation's type queries: `u[i]` (index_result), `u.N` (tuple_element_at), `*u` (mut_element_type), `u(args)` "
+       "(arguments against params(), result return_type()), `u = v` (mut_assign_type). Thm/C01StU proves, for unions of any number of members, "
+       "that a join-folded query answers above every member's answer and the meet-folded params() / mut_assign_type() below every member's, and "
+       "that a good value of a union type is a value of one member; each union case of the outcome theorem reduces to the member's case. "
+       "Outside the fragment (structs, the built-in iterator operators, inferred `mut e`, slices and compound assignment on unions) the "
        "evaluator-level statement is NOT proved: for the "
        "running code it is decided by the in-crate monitor (feature `verif`), which judges the result of every executed "
        "instruction (~140k per quick run) against that instruction's own return_type() by tag and by contents, on generated "
@@ -178,8 +183,10 @@ CLAIMED = {
        "exhaustion or a well-typed `return`, and NOTHING else: no `wrong` (no panic), no break / continue escaping a function. "
        "STAGE 4 (Thm/C01StD, shared with C01) extends it to MUTABLE CELLS AND LOOPS over a store typing (program_outcome): no read or write of "
        "a cell that does not exist, no assignment to a non-cell, no compound assignment whose operator meets operands of the wrong kind, no "
-       "break / continue outside a loop - a typed program ends in a value of its type, a documented error or fuel exhaustion. "
-       "Progress outside the fragment (iterators, structs, `for`) is NOT "
+       "break / continue outside a loop - a typed program ends in a value of its type, a documented error or fuel exhaustion; with `for` over "
+       "hand-written iterators, tuple destructuring, and index / tuple access / `*` / call / `=` on operands of union types (no call of a "
+       "non-function, no index into a non-indexable member, no store of a value the selected cell does not admit). "
+       "Progress outside the fragment (built-in iterator operators, structs) is NOT "
        "proved: for the running code it is decided "
        "by panic hook + catch_unwind + worker exit status on generated programs, scoping / control-flow templates, iterator "
        "pipelines, assignment histories and host calls (admissible vectors must run, inadmissible ones must be rejected).",
